@@ -111,7 +111,17 @@ func genC04(e *emitter, tier string, seed int64) {
 		}
 	}
 	// object-less and non-indexable objects
-	for _, src := range []string{"p(.[0])", ".[0] = 1", "x = 5\np(x[0])", "x = \"abc\"\np(x[0])", "p(nosuch[0])", "nosuch[0] = 1", "x = nil\nx[0] = 1"} {
+	// errors and wrongly typed values inside subscripts and bounds (through variables: literals are rejected by the parser)
+	for _, sub := range []string{"l[1 / zero:]", "l[:1 / zero]", "l[::1 / zero]", "l[:e]", "l[e:]", "l[::e]", "l[:f]", "l[f:]", "l[::f]", "l[nl:2]", "l[:nl]", "l[::nl]", "l[b:]", "l[:b]", "l[1 / zero]", "l[e]", "l[f]", "l[b]", "l[nl]",
+		"m[1 / zero]", "m[b]", "m[f]", "m[nl]", "s[e:]", "s[:f]", "s[1 / zero]", "s[0][0]", "l[0][1 / zero]", "l[p(1):p(2):1 / zero]"} {
+		pre := "l = [[1], 2, 3]\nm = {\"a\": 1}\ns = \"héllo\"\nzero = 0\ne = \"a\"\nf = 1.5\nb = true\nnl = nil\n"
+		emitProg(e, pre+"p(\"before\")\nx = "+sub+"\np(\"after\", x)\n", pt, true, "index-misc")
+		if !strings.Contains(sub, ":") {
+			emitProg(e, pre+sub+" = 9\np(l, m, s)\n", pt, true, "index-misc")
+			emitProg(e, pre+sub+" += 1\np(l, m, s)\n", pt, true, "index-misc")
+		}
+	}
+	for _, src := range []string{"zero = 0\nfor x in 1 / zero {\n  p(x)\n}\np(\"after\")", "for x in nosuchname {\n  p(x)\n}\np(\"after\")", "p(.[0])", ".[0] = 1", "x = 5\np(x[0])", "x = \"abc\"\np(x[0])", "p(nosuch[0])", "nosuch[0] = 1", "x = nil\nx[0] = 1"} {
 		emitProg(e, src+"\n", pt, true, "index-misc")
 	}
 	// ---- len / in on collections ----
